@@ -148,6 +148,11 @@ def text_matches(text, w, s, k, line, col, block_comment):
                 r = same(ti, " " * sp) and go(ti + sp, i + n, l2, c2)
             elif n > 1:
                 r = same(ti, [c]) and go(ti + 1, i + n, l2, c2)
+        if not r and c is None and n == 4 and i + 3 <= k:
+            # "??/" + newline read as the trigraph for a backslash (replaced) followed by a newline of its own -- what the
+            # lexer does after an escaping backslash ('\\' spelled '\??/'); nothing is lost or duplicated by that reading
+            l3, c3 = advance(line, col, w[i:i + 3])
+            r = same(ti, ["\\"]) and go(ti + 1, i + 3, l3, c3)
         if not r:
             # keep the first raw character as written
             l1, c1 = advance(line, col, w[i:i + 1])
